@@ -192,7 +192,11 @@ impl Directive {
                     .name("fields")
                     .map(|c| {
                         FIELD_FILTER_RE
-                            .find_iter(c.as_str())
+                            .captures_iter(c.as_str())
+                            // the whole match includes the `,` that separates
+                            // this field from the next one; the first group is
+                            // just the field (and its value)
+                            .filter_map(|c| c.get(1))
                             .map(|c| field::Match::parse(c.as_str(), regex))
                             .collect::<Result<Vec<_>, _>>()
                     })
